@@ -346,6 +346,8 @@ def evaluate(case):
         s = size_of(case)
         if dist < 0.99e-3 * s:
             return {"status": "skipped", "why": "closer than 1e-3 of the source size"}
+        if case["cls"] in ("Triangle", "Tetrahedron", "TriangularMesh") and edge_angle(case, ol) < TRI_EDGE_CONE:
+            return {"status": "skipped", "why": "documented precision loss on a triangle edge extension"}
         Href, Bref, S, ok, ev = reference(case, ol)
         if not ok:
             return {"status": "skipped", "why": "reference quadrature not converged", "evals": ev}
@@ -446,7 +448,10 @@ def gen_params(rng, cls):
         r1 = 0.0 if rng.random() < 0.25 else r2 * rng.uniform(0.1, 0.85)
         a1 = rng.choice([0.0, -90.0, 30.0, rng.uniform(-180, 180)])
         span = rng.choice([360.0, 180.0, 90.0, rng.uniform(20, 340)])
-        return {"polarization": _pol(rng), "dimension": [r1, r2, sc * _logu(rng, 0.3, 3.0), a1, a1 + span]}
+        a2 = a1 + span
+        if a2 - a1 > 360.0:
+            a1, a2 = 0.0, 360.0
+        return {"polarization": _pol(rng), "dimension": [r1, r2, sc * _logu(rng, 0.3, 3.0), a1, a2]}
     if cls == "Sphere":
         return {"polarization": _pol(rng), "diameter": sc}
     if cls == "Tetrahedron":
@@ -704,6 +709,10 @@ def region(case):
 
 
 EPS = 2.0 ** -52
+# triangle_Bfield documents: "Loss of precision when approaching a triangle as (x-edge)**2" (all
+# precision is lost ON the straight line through an edge).  Observers inside this cone (angle to
+# the edge line, seen from its nearer end) are not judged for the three triangle-based classes.
+TRI_EDGE_CONE = 1e-4
 
 
 def tolerance(case):
